@@ -9,15 +9,19 @@ package main
 // Lean model only transcribes — is what runs here.
 
 import (
+	"context"
 	"fmt"
 	"strings"
+	"sync/atomic"
 	"time"
 
 	"github.com/miekg/dns"
 	"github.com/semihalev/sdns/config"
 	"github.com/semihalev/sdns/internal/verif/l3"
 	"github.com/semihalev/sdns/internal/verif/vlib"
+	"github.com/semihalev/sdns/middleware"
 	"github.com/semihalev/sdns/middleware/cache"
+	"github.com/semihalev/sdns/middleware/resolver"
 )
 
 const (
@@ -328,6 +332,73 @@ func execL3ShedNested() vlib.Res {
 		if len(retained) > 0 || ede13 || (rc(again) == dns.RcodeServerFailure && (u1-u0)+(t1-t0) == 0) {
 			or = "FAIL sig=l3shed/nested/shed-sub-lookup-became-shared-failure retained=" + strings.Join(retained, ",")
 		}
+	}
+	return vlib.Res{Impl: impl, Oracle: or, Tags: "nt"}
+}
+
+// ---- the name-server address sub-lookups of a glueless delegation
+
+var (
+	nssPipe *l3.Pipe // one real resolver, built on first use (never torn down)
+	nssSeq  atomic.Uint64
+)
+
+// nssQueryer scripts the address lookup of each name-server host.
+type nssQueryer struct{ outcome map[string]string }
+
+func (q *nssQueryer) Query(ctx context.Context, req *dns.Msg) (*dns.Msg, error) {
+	o := q.outcome[strings.ToLower(req.Question[0].Name)]
+	resp := new(dns.Msg)
+	switch {
+	case o == "a":
+		resp.SetReply(req)
+		resp.Answer = []dns.RR{&dns.A{Hdr: dns.RR_Header{Name: req.Question[0].Name, Rrtype: dns.TypeA, Class: 1, Ttl: 60}, A: []byte{198, 51, 100, 77}}}
+	case o == "e":
+		resp.SetReply(req)
+	case strings.HasPrefix(o, "l:"):
+		resp.SetRcode(req, dns.RcodeServerFailure)
+		middleware.MarkRequestLocalFailureResponse(ctx, resp, causeErr(o[2:]))
+	case strings.HasPrefix(o, "x:"):
+		return nil, causeErr(o[2:])
+	default:
+		resp.SetRcode(req, dns.RcodeServerFailure)
+	}
+	return resp, nil
+}
+
+// fail nss <outcome csv>   a address | e empty NOERROR | f SERVFAIL | l:<cause> SERVFAIL response marked
+// request-local | x:<cause> Go error.  Runs the real Resolver.lookupV4Nss; "noservers" is what makes
+// processDelegation publish the zone as unreachable.
+func execNss(a []string) vlib.Res {
+	if nssPipe == nil {
+		w := l3.NewWorld(false)
+		nssPipe = l3.NewPipe(w, l3.PipeOpts{})
+	}
+	outs := strings.Split(a[0], ",")
+	seq := nssSeq.Add(1)
+	q := &nssQueryer{outcome: map[string]string{}}
+	var hosts []string
+	anyLocal := false
+	for i, o := range outs {
+		h := fmt.Sprintf("h%d-%d.nss-c13.example.", i, seq)
+		hosts = append(hosts, h)
+		q.outcome[h] = o
+		if len(o) > 2 && localCause(o[2:]) {
+			anyLocal = true
+		}
+	}
+	ctx, _ := middleware.EnsureResolutionAttemptGuard(context.Background())
+	n, err := resolver.VerifC13LookupV4Nss(nssPipe.Resolver, q, ctx, fmt.Sprintf("z%d.nss-c13.example.", seq), hosts, 0xc13000000+seq)
+	impl := "noservers"
+	switch {
+	case err != nil:
+		impl = "err:" + classifyErr(err)
+	case n > 0:
+		impl = "servers"
+	}
+	or := "ok"
+	if impl == "noservers" && anyLocal {
+		or = "FAIL sig=nss/request-local-sub-lookup-failure-counted-as-unreachable-zone outcomes=" + a[0]
 	}
 	return vlib.Res{Impl: impl, Oracle: or, Tags: "nt"}
 }
